@@ -45,6 +45,26 @@ func TestC05(t *testing.T) {
 		}
 		c05Fresh(m, v, rng, et)
 	}
+	// key usage numbers across the range the derivation constant can carry: every one up to 450 (4200 in
+	// thorough) for the etypes whose keys are derived by n-fold, around 2^8, 2^16, 2^24, and PRNG ones
+	top := uint32(450)
+	if Thorough() {
+		top = 4200
+	}
+	for _, et := range []int32{17, 18, 16} {
+		for u := uint32(1); u <= top; u++ { // zero is not a key usage (RFC 3961 section 4); the library refuses it
+			if et == 16 && !Thorough() && u > 64 {
+				break
+			}
+			c05Case(m, v, rng, et, 5+int(u%28), u)
+		}
+		for _, u := range []uint32{4087, 4088, 4095, 4096, 65535, 65536, 65791, 1<<24 - 1, 1 << 24, 1<<32 - 1} {
+			c05Case(m, v, rng, et, 9, u)
+		}
+		for i := 0; i < 40; i++ {
+			c05Case(m, v, rng, et, 1+rng.Intn(40), uint32(rng.U64())|1)
+		}
+	}
 	c05FreshMixed(v, rng)
 	v.ModelAsks = m.N
 	v.Write(t)
@@ -82,7 +102,14 @@ func c05Case(m *Model, v *Verdict, rng *RNG, et int32, l int, usage uint32) {
 		v.Violate("correspondence", "c05:model-bad-op", "kmodel refused an encrypt request", map[string]string{"op": op2, "answer": mc})
 		return
 	}
-	got2 := decRes(goDecrypt(et, key, UnX(mc[3:]), usage))
+	ctb, keyb := UnX(mc[3:]), append([]byte{}, key...)
+	got2 := decRes(goDecrypt(et, keyb, ctb, usage))
+	// decrypting leaves the caller's message and key as they were, and gives the same answer again
+	if X(ctb) != mc[3:] || X(keyb) != X(key) {
+		v.Violate("failing-input", fmt.Sprintf("c05:decrypt-mutates-input:et=%d", et), "DecryptMessage changed the ciphertext or the key it was given (a second reader of the same message no longer decrypts it)", map[string]string{"op": op2, "ct-before": mc[3:], "ct-after": X(ctb), "key-after": X(keyb)})
+	} else if again := decRes(goDecrypt(et, keyb, ctb, usage)); again != got2 {
+		v.Violate("failing-input", fmt.Sprintf("c05:decrypt-not-repeatable:et=%d", et), "decrypting the same message twice gives different results", map[string]string{"op": op2, "first": got2, "second": again})
+	}
 	if got2 != want {
 		u := "lib"
 		if usage >= 128 {
